@@ -500,7 +500,10 @@ def mon_c04(s, v):
     if getattr(s, "ending", None) == "cancel" and getattr(s, "heal_ok", False) and not s.crashed:
         for m in getattr(s, "bq", []):
             what = "PUBLISH" if m["state"] == "pub" else "PUBREL"
-            f.append(f"inbound QoS {m['qos']} message {m['tag']!r} (id {m['pid']}): the client never answered the broker's {what} during the fault-free suffix (lines {s.heal_start}-{s.heal_end}); the exchange never completes")
+            # narrow classifier of the recorded finding F24: the PUBREC reached the broker inside a write the client saw fail with try_again
+            f24 = m["qos"] == 2 and m["state"] == "rel" and any(w["result"] == "try_again" and any(k < w["delivered"] and dd["type"] == "pubrec" and dd.get("pid") == m["pid"]
+                                                                                                   for k, dd in enumerate(decs(w))) for w in s.wlog)
+            f.append(("KNOWN-F24: " if f24 else "") + f"inbound QoS {m['qos']} message {m['tag']!r} (id {m['pid']}): the client never answered the broker's {what} during the fault-free suffix (lines {s.heal_start}-{s.heal_end}); the exchange never completes")
         if getattr(s, "channel_drained", False):
             for b in getattr(s, "bsent", []):
                 if b["acked"] and b["tag"] not in tags:
